@@ -411,6 +411,130 @@ def judge(prog, script, free, obs):
     return None
 
 
+# ---- histories on ONE State: render_captured, then many calls on the captured state ------------------------------------
+HIST_CTX = {"n": 7, "m": -12, "s": "ab", "k": [1, 2, 3], "h": "<b>&"}
+HIST_FAMILIES = [
+    # (templates, main, blocks, macros)
+    ({"base": "{% block a %}base-a:{{ n }}{% for i in k %}{{ i }}{% endfor %}{% endblock %}|{% block z %}z{{ s }}{% endblock %}",
+      "mid": "{% extends 'base' %}{% block a %}mid({{ super() }}){{ m }}{% endblock %}",
+      "child": "{% extends 'mid' %}{% macro mm() %}M{{ n }}{% endmacro %}{% block a %}child[{{ super() }}]{{ s }}{% endblock %}{% block z %}Z{{ super() }}{% include 'inc' %}{% endblock %}",
+      "inc": "i{{ n }}{{ s }}"}, "child", ["a", "z"], ["mm"]),
+    ({"base.html": "<{% block a %}b{{ h }}{{ n }}{% endblock %}>", "child.html": "{% extends 'base.html' %}{% block a %}[{{ h }}{{ super() }}{{ super()|upper }}]{% endblock %}"},
+     "child.html", ["a"], []),
+    ({"l0": "{% block a %}0:{{ n }}{{ s }}{% endblock %}", "l1": "{% extends 'l0' %}{% block a %}1({{ super() }}){% endblock %}",
+      "l2": "{% extends 'l1' %}{% block a %}2({{ super() }}{{ m }}){% endblock %}", "l3": "{% extends 'l2' %}{% block a %}3({{ super() }})|{% set x = super() %}{{ x }}{% endblock %}"},
+     "l3", ["a"], []),
+    ({"main": "{% macro w(v) %}<{{ v }}{{ n }}>{% endmacro %}{% macro plain() %}p{{ s }}{{ w(1) }}{% endmacro %}{% block outer %}o{% block inner %}i{{ n }}{{ w(s) }}{% endblock %}{{ self.inner() }}{% include 'inc' %}{% for i in k %}{% include 'inc' %}{% endfor %}{% endblock %}",
+      "inc": "({{ s }}{{ n }})"}, "main", ["outer", "inner"], ["plain"]),
+]
+
+
+def history_steps(rng, blocks, macros, W, reps):
+    """healthy reference calls, then failing sinks at every write point of every block, with healthy calls in between"""
+    steps = [{"op": "block_to_write", "block": b, "script": [], "record": True} for b in blocks]
+    steps += [{"op": "block", "block": b} for b in blocks] + [{"op": "macro", "name": m_} for m_ in macros]
+    pts = [(b, k) for b in blocks for k in range(len(W[b]))]
+    for rep in range(reps):
+        b, k = pts[rep % len(pts)] if pts else (blocks[0], 0)
+        kind = MAIN_KINDS[rep % 3]
+        st = {"op": "block_to_write", "block": b, "script": ["full"] * k + ["e:" + kind], "record": True, "fail_at": k}
+        if rep % 2:
+            st["default"] = "e:" + kind
+        steps.append(st)
+        if rep % 5 == 4:
+            hb = blocks[(rep // 5) % len(blocks)]
+            steps.append({"op": "block_to_write", "block": hb, "script": [], "record": True})
+            steps.append({"op": "block", "block": hb})
+            if macros:
+                steps.append({"op": "macro", "name": macros[(rep // 5) % len(macros)]})
+    return steps
+
+
+def history_judge(steps, resp):
+    """the outcome of a call must not depend on earlier calls on the state.  -> (step index, what) or None"""
+    if "history" not in resp:
+        return (0, "the harness could not run the history: %s" % json.dumps(resp)[:200])
+    ref_w, ref_b, ref_m = {}, {}, {}
+    for i, (st, r) in enumerate(zip(steps, resp["history"])):
+        res = r.get("result", {})
+        if "panic" in res:
+            return (i, "panic: %r" % res["panic"])
+        if st["op"] == "block_to_write":
+            b = st["block"]
+            failing = "fail_at" in st
+            if not failing:
+                cur = (r.get("got"), r.get("offered"), "ok" if "ok" in res else res.get("err"))
+                if b not in ref_w:
+                    ref_w[b] = cur
+                elif cur != ref_w[b]:
+                    return (i, "a healthy writer receives something else than the first healthy writer did on this state (block %s): result %s" % (b, cur[2]))
+            else:
+                if b not in ref_w or ref_w[b][2] != "ok":
+                    continue
+                W = [hexb(x) for x in ref_w[b][1]]
+                k = st["fail_at"]
+                if k >= len(W):
+                    continue
+                if hexb(r.get("got")) != b"".join(W[:k]):
+                    return (i, "bytes received by the failing writer are not the first %d writes of the block" % k)
+                if r.get("calls_after_fail", 0):
+                    return (i, "%d write call(s) after the sink had failed" % r["calls_after_fail"])
+                if res.get("err") != 19:
+                    return (i, "the sink failed at write %d but the call returned %s, not WriteFailure" % (k, ERR_NAMES.get(res.get("err"), res)))
+                if not res.get("source_is_io") or res.get("io_msg") != "injected#%d" % k:
+                    return (i, "WriteFailure does not carry the sink's first io::Error as source")
+        else:
+            key, ref = st.get("block") or st.get("name"), (ref_b if st["op"] == "block" else ref_m)
+            cur = (r.get("text"), "ok" if "ok" in res else res.get("err"))
+            if key not in ref:
+                ref[key] = cur
+            elif cur != ref[key]:
+                return (i, "%s(%s) on the reused state gives another result than the first time: %s" % ("render_block" if st["op"] == "block" else "call_macro", key, cur[1]))
+    return None
+
+
+def run_histories(chk, hist, replay=None):
+    """-> (evaluations, list of (what, replay dict))"""
+    rng = chk.rng
+    bad, evals = [], 0
+    jobs = []
+    if replay:
+        jobs.append((replay["templates"], replay["main"], replay.get("recursion_limit"), replay["steps"]))
+    else:
+        for t, main, blocks, macros in HIST_FAMILIES:
+            for limit in (None, 24, 32, 48):
+                probe = {"templates": t, "main": main, "ctx": HIST_CTX, "history": [{"op": "block_to_write", "block": b, "script": [], "record": True} for b in blocks]}
+                if limit:
+                    probe["recursion_limit"] = limit
+                r = run_c19([probe])[0]
+                if "history" not in r or any("ok" not in x.get("result", {}) for x in r["history"]):
+                    hist["history_reference_unavailable"] += 1          # e.g. the limit is too small for the template itself
+                    continue
+                W = {b: x["offered"] for b, x in zip(blocks, r["history"])}
+                reps = (150 if chk.thorough else 120) if limit is None else 40
+                jobs.append((t, main, limit, history_steps(rng, blocks, macros, W, reps)))
+    for rel in (False, True):
+        reqs = []
+        for t, main, limit, steps in jobs:
+            q = {"templates": t, "main": main, "ctx": HIST_CTX, "history": [{k_: v_ for k_, v_ in st.items() if k_ != "fail_at"} for st in steps]}
+            if limit:
+                q["recursion_limit"] = limit
+            reqs.append(q)
+        for (t, main, limit, steps), resp in zip(jobs, run_c19(reqs, release=rel)):
+            evals += len(steps)
+            if not rel:
+                hist["history_calls"] += len(steps)
+                hist["history_failing_writers"] += sum(1 for st in steps if "fail_at" in st)
+            v = history_judge(steps, resp)
+            if v:
+                i, what = v
+                bad.append(("call %d of a history on one State: %s" % (i, what),
+                            {"kind": "history", "templates": t, "main": main, "context": HIST_CTX, "recursion_limit": limit, "steps": steps[:i + 1],
+                             "failed_step": i, "observed": resp.get("history", [resp])[i] if "history" in resp else resp, "profile": "release" if rel else "debug",
+                             "how": "./check C19 --replay <this file>"}))
+    return evals, bad
+
+
 def main():
     chk = Check("C19", "proof")
     chk.cov["trusted_base"] = TRUSTED_COMMON + [
@@ -430,6 +554,14 @@ def main():
         chk.finish()
 
     replay_script = None
+    if chk.replay and json.load(open(chk.replay))["replay"].get("kind") == "history":
+        rp = json.load(open(chk.replay))["replay"]
+        hh = collections.Counter()
+        ev, hb = run_histories(chk, hh, replay=rp)
+        for what, r_ in hb[:1]:
+            chk.violation(what, r_)
+        chk.cov["evaluations"] = ev
+        chk.finish()
     if chk.replay:
         rp = json.load(open(chk.replay))["replay"]
         p = rp["program"]
@@ -587,6 +719,12 @@ def main():
         else:
             kern_ok = True
 
+    hist_bad = []
+    if not chk.replay:
+        ev_h, hist_bad = run_histories(chk, hist)
+        evaluations += ev_h
+        nontriv.update(("history", i) for i in range(hist["history_failing_writers"]))
+        chk.cov["histories"] = {"calls": hist["history_calls"], "failing_writers": hist["history_failing_writers"], "violations": len(hist_bad)}
     chk.cov["evaluations"] = evaluations
     chk.cov["distinct_nontrivial"] = len(nontriv)
     chk.cov["rule"] = ("programs = hand-written multi-template families (include, extends/super, import, block entry via render_block_to_write, render errors, "
@@ -601,8 +739,12 @@ def main():
     chk.cov["interpreter_chunk_lists"] = {"compared": chunk_checked, "disagreements": len(chunk_bad),
                                           "failing_renders_compared": failing_compared, "failing_renders_with_output_before_the_error": failing_with_output,
                                           "every_chunk_boundary_is_a_write_boundary": chunk_refined}
+    for what, r_ in hist_bad[:3]:
+        chk.violation(what, r_)
+    if hist_bad:
+        bad = bad or [None]
     seen = set()
-    for p, sc, prof, why, ob in bad:
+    for p, sc, prof, why, ob in [x for x in bad if x]:
         key = (json.dumps(p.templates, sort_keys=True), why)
         if key in seen or len(seen) >= 5:
             continue
